@@ -4,7 +4,7 @@ import vlib
 
 PROPS = ["C06", "C20"]
 EVERY = {"quick": 150, "thorough": 40}
-NSIM = {"quick": 200, "thorough": 4000}
+NSIM = {"quick": 15, "thorough": 300}   # each walk yields one behaviour per successor of its last state (~45)
 
 
 def run(prop, tier, seed, scratch, replay=None):
